@@ -5,6 +5,7 @@ EXTENDS Sequences
      lin2   10*p1 + p2          lin3  100*p1 + 10*p2 + p3      inc  p1 + 1
      twice  vp_twice(p1) = 2*p1 (vp_twice comes from the function's include file)
      meth   2*obj->pt() + p1    (method style: obj is bound to the receiver)
+     lit    0.5*p1 + 0.001*p2   (the code is full of numeric literals with suffix / exponent letters)
      pair   the collection <<p1, p2>>
    Parameter names collide on purpose with method names used in actual arguments (pt, eta, a, b, n, m),
    with each other as prefixes (x, xx) and with the default result name.                              *)
@@ -17,7 +18,10 @@ UserFns == <<
   [id |-> "vp_inc_res",    params |-> <<"val">>,          meaning |-> "inc",   result |-> "res",    style |-> "function", include |-> ""],
   [id |-> "vp_incl",       params |-> <<"v">>,            meaning |-> "twice", result |-> "result", style |-> "function", include |-> "vp_userfn.h"],
   [id |-> "vp_meth",       params |-> <<"k">>,            meaning |-> "meth",  result |-> "result", style |-> "method",   include |-> ""],
-  [id |-> "vp_pair",       params |-> <<"pt", "eta">>,    meaning |-> "pair",  result |-> "result", style |-> "function", include |-> ""]
+  [id |-> "vp_pair",       params |-> <<"pt", "eta">>,    meaning |-> "pair",  result |-> "result", style |-> "function", include |-> ""],
+  \* parameters spelled like the suffix / exponent letters of the numeric literals in the code (0.5f, 1e-3, 1000L)
+  [id |-> "vp_lit_f_e",    params |-> <<"f", "e">>,       meaning |-> "lit",   result |-> "result", style |-> "function", include |-> ""],
+  [id |-> "vp_lit_L_u",    params |-> <<"L", "u">>,       meaning |-> "lit",   result |-> "result", style |-> "function", include |-> ""]
 >>
 FnById(id) == UserFns[CHOOSE i \in DOMAIN UserFns : UserFns[i].id = id]
 
@@ -26,6 +30,7 @@ FnCode(f, deref) ==
   LET p == f.params  r == f.result IN
   CASE f.meaning = "lin2"  -> <<"auto " \o r \o " = 10.0*" \o p[1] \o " + " \o p[2] \o ";">>
     [] f.meaning = "lin3"  -> <<"double vp_tmp = 100.0*" \o p[1] \o " + 10.0*" \o p[2] \o ";", "auto " \o r \o " = vp_tmp + " \o p[3] \o ";">>
+    [] f.meaning = "lit"   -> <<"double vp_k = 1000L * 1e-3 + 10u - 10;", "auto " \o r \o " = 0.5f * " \o p[1] \o " * vp_k + 1e-3 * " \o p[2] \o ";">>
     [] f.meaning = "inc"   -> <<"auto " \o r \o " = " \o p[1] \o " + 1.0;">>
     [] f.meaning = "twice" -> <<"auto " \o r \o " = vp_twice(" \o p[1] \o ");">>
     [] f.meaning = "meth"  -> <<"auto " \o r \o " = 2.0*obj" \o deref \o "pt() + " \o p[1] \o ";">>
